@@ -12,6 +12,8 @@ static Boxes translate(const Boxes &b, int64_t dx, int64_t dy) {
   return o;
 }
 static bool clip_enabled(const SImg &s) { return s.has_clip && s.client_clip && s.source_clipping; }
+// the clip of a source's alpha map is a source clip like the image's own (positioned through the map's origin)
+static bool amap_clip_enabled(const SImg &s) { return s.kind == 0 && s.has_alpha_map && s.amap_has_clip && s.amap_client_clip && s.amap_source_clipping; }
 static Boxes model_region(const Scene &sc) {
   const SImg &d = sc.dst;
   Boxes r{{sc.dx, sc.dy, (int64_t)sc.dx + sc.w, (int64_t)sc.dy + sc.h}};
@@ -19,9 +21,11 @@ static Boxes model_region(const Scene &sc) {
   if (d.has_clip) r = rr::combine(r, d.clip, rr::INTER);
   if (d.has_alpha_map) r = rr::combine(r, Boxes{{d.ax, d.ay, (int64_t)d.ax + d.amap.w, (int64_t)d.ay + d.amap.h}}, rr::INTER);
   if (clip_enabled(sc.src)) r = rr::combine(r, translate(sc.src.clip, (int64_t)sc.dx - sc.sx, (int64_t)sc.dy - sc.sy), rr::INTER);
+  if (amap_clip_enabled(sc.src)) r = rr::combine(r, translate(sc.src.amap_clip, (int64_t)sc.dx - sc.sx + sc.src.ax, (int64_t)sc.dy - sc.sy + sc.src.ay), rr::INTER);
   if (sc.has_mask) {
     const SImg &m = sc.mask_is_src ? sc.src : sc.mask;
     if (clip_enabled(m)) r = rr::combine(r, translate(m.clip, (int64_t)sc.dx - sc.mx, (int64_t)sc.dy - sc.my), rr::INTER);
+    if (amap_clip_enabled(m)) r = rr::combine(r, translate(m.amap_clip, (int64_t)sc.dx - sc.mx + m.ax, (int64_t)sc.dy - sc.my + m.ay), rr::INTER);
   }
   return r;
 }
@@ -148,6 +152,26 @@ static TCase gen_case() {
     } else
       s->has_clip = 0;
     s->has_alpha_map = 0;
+    s->amap_has_clip = 0;
+    // an alpha map with a clip of its own, origin with different x and y. (For a mask the library consults the map's clip
+    // only when the mask image itself has a clip region set, enabled or not; a map clip on a clip-less mask is left out of
+    // the domain — see DESIGN §9.)
+    pixman_format_code_t sf = s->bits.code();
+    if (coin(25) && !is_yuv(sf) && !is_float(sf) && ((k == 0 && !sc.mask_is_src) || s->has_clip)) {
+      s->has_alpha_map = 1;
+      s->amap = gen_bits(fmt_index(pick<pixman_format_code_t>({PIXMAN_a8, PIXMAN_a4, PIXMAN_a1, PIXMAN_a8r8g8b8})), 1, 1);
+      s->amap.w = (int)R(1, W + 6);
+      s->amap.h = (int)R(1, H + 6);
+      s->ax = (int)R(-3, 4);
+      s->ay = (int)R(-3, 4);
+      if (coin(85)) {
+        s->amap_has_clip = 1;
+        int64_t ox = (k ? (int64_t)sc.dx - sc.mx : (int64_t)sc.dx - sc.sx) + s->ax, oy = (k ? (int64_t)sc.dy - sc.my : (int64_t)sc.dy - sc.sy) + s->ay;
+        s->amap_clip = coin(85) ? translate(dest_boxes(3), -ox, -oy) : gen_clip(W + 4, H + 4, 3);
+        s->amap_client_clip = coin(80);
+        s->amap_source_clipping = coin(80);
+      }
+    }
   }
   // operators that change every pixel they touch carry most of the mass
   sc.op = coin(70) ? pick<int>({PIXMAN_OP_SRC, PIXMAN_OP_SRC, PIXMAN_OP_CLEAR, PIXMAN_OP_IN, PIXMAN_OP_ADD, PIXMAN_OP_OVER, PIXMAN_OP_XOR}) : sc.op;
@@ -236,6 +260,7 @@ static Verdict run_case(const TCase &c) {
   v.nontrivial = nt;
   if (sc.dst.has_alpha_map) v.label("dest_alpha_map");
   if (clip_enabled(sc.src) || (sc.has_mask && clip_enabled(sc.mask_is_src ? sc.src : sc.mask))) v.label("source_clip_enabled");
+  if (amap_clip_enabled(sc.src) || (sc.has_mask && amap_clip_enabled(sc.mask_is_src ? sc.src : sc.mask))) v.label("source_alpha_map_clip_enabled");
   if (bpp(df) < 8) v.label("subbyte_dest");
   return v;
 }
